@@ -589,3 +589,54 @@ func cmdLedger(args []string) {
 	data, _ := json.MarshalIndent(ledger, "", " ")
 	os.WriteFile(filepath.Join(verifDir, "baseline_ledger.json"), data, 0o644)
 }
+
+// cmdSweep: run the VC generator over every /repo function (no solving) and report engine errors.
+func cmdSweep(args []string) {
+	P, err := loadProgram()
+	if err != nil {
+		fmt.Fprintln(os.Stderr, err)
+		os.Exit(3)
+	}
+	L, err := loadLibrary()
+	if err != nil {
+		fmt.Fprintln(os.Stderr, err)
+		os.Exit(3)
+	}
+	errs := map[string][]string{}
+	abstr := map[string]int{}
+	total := 0
+	for _, k := range P.funcNames() {
+		if len(args) > 0 && !strings.Contains(k, args[0]) {
+			continue
+		}
+		x := newExec(P, L)
+		x.closures = map[string]*closureInfo{}
+		e := x.verifyFunc(k)
+		total += len(x.obls)
+		if e != nil {
+			msg := e.Error()
+			msg = strings.TrimPrefix(msg, k+": ")
+			errs[msg] = append(errs[msg], k)
+		}
+		for a := range x.abstr {
+			abstr[a]++
+		}
+	}
+	var msgs []string
+	for m := range errs {
+		msgs = append(msgs, m)
+	}
+	sort.Strings(msgs)
+	for _, m := range msgs {
+		fmt.Printf("ERROR %s\n    %s\n", m, strings.Join(errs[m], "\n    "))
+	}
+	var as []string
+	for a := range abstr {
+		as = append(as, a)
+	}
+	sort.Strings(as)
+	for _, a := range as {
+		fmt.Printf("ABSTR %4d %s\n", abstr[a], a)
+	}
+	fmt.Printf("%d functions, %d obligation instances, %d distinct errors\n", len(P.Funcs), total, len(errs))
+}
